@@ -305,7 +305,7 @@ def run(prog: Program, res: Result, tier: str) -> None:
              (o.rule == "C07.R4" and "downsample" in (o.where or "")),
              why="what each write appends is C07's business: the written slices, and for downsample that no decimation group straddles a gulp "
                  "(otherwise the samples appended after the first gulp are not those of the full result)")
-    _depends(res, "O7", prog, tier, "C04", accept=lambda o: o.rule == "C04.R1",
+    _depends(res, "O7", prog, tier, "C04", accept=lambda o: o.rule == "C04.R1" or (o.rule == "C04.R2" and "to_file" in (o.key or "") + (o.construct or "")),
              why="FileWriter.cwrite writes exactly the array it was given, converted (C04.R1): a writer that keeps state between calls could append stale bytes")
 
     # ---- O5 no patching ------------------------------------------------------------------
